@@ -30,7 +30,7 @@ LEVEL = "exploration"
 ENGINE = "aggregator_harness"
 DESIGN_REF = "DESIGN.md §3 C30"
 TECHNIQUE = "generated message histories (story of sequential runs + duplication/resend/reorder/drop/reconnect mutations) on the real aggregator with sqlite; per-run-id row-count invariants checked after every message"
-RULE = ("Hypothesis writes the message story of 1-3 sequential runs (optionally a second engine) and applies 0-4 mutations "
+RULE = ("Hypothesis writes the message story of 1-3 sequential runs (optionally a second engine) and applies 0-5 mutations "
         "(duplicate a run notification later in the stream, resend it after a disconnect+re-register, swap/move/drop "
         "notifications, insert reconnects). Non-trivial = at least one run-started/run-stopped notification is delivered "
         "twice or out of its story order. Distinct = distinct operation list.")
@@ -41,7 +41,7 @@ ASSUMPTIONS = [
     "a run whose RunStopped was delivered only before its RunStarted is not required to have a RecentRun (the aggregator cannot know it ended); it must still not have two",
 ]
 TIERS = {
-    "quick": {"cases": 6000, "budget_s": 50},
+    "quick": {"cases": 6000, "budget_s": 170},
     "thorough": {"cases": 200000, "budget_s": 800},
 }
 T0 = AggHarness.T0
@@ -190,7 +190,7 @@ def histories(draw):
         body.append(stories[e][cursors[e]])
         cursors[e] += 1
     # ---- damage ------------------------------------------------------------------------------------
-    nmut = draw(st.integers(0, 4))
+    nmut = draw(st.integers(0, 5))
     for _ in range(nmut):
         notif = [i for i, o in enumerate(body) if o["op"] in ("run_started", "run_stopped")]
         if not notif:
